@@ -325,6 +325,29 @@ def no_self_dependence(ctx, rule='C14-T4'):
                   instance=f'{label}: {col} reset first')
         # the reset happens after the prerequisite refusal (covered by T3) and before the recomputation
         # isolated / ncomp likewise for the stage that owns them
+    # a stage does not read the per-row product it owns (find_groups: isolated, find_layers: ncomp) unless it
+    # has reset it first: otherwise a repeated call behaves differently from the first one
+    for m, binding, own, label in stage_methods(ctx, rule):
+        spec = {'find_groups()': ('_slices', 'isolated'), 'find_layers()': ('_groups', 'ncomp')}.get(label)
+        if spec is None:
+            continue
+        tbl, col = ('attr', SELF, spec[0]), spec[1]
+        ex, s = run_inlined(ctx, m, binding)
+
+        def reads(v):
+            return v is not None and T.contains(
+                v, lambda x: (tag(x) == 'cell' and x[3] == col and T.root(x[1]) == tbl) or
+                (tag(x) == 'col' and x[2] == col and T.root(x[1]) == tbl))
+        reset_seq = min((e.seq for e in s.events if e.kind == 'store' and e.target == ('col', tbl, col)
+                         and not e.loops), default=1 << 60)
+        bad = [e for e in s.events if e.guard != T.FALSE and e.seq < reset_seq and (
+            (e.kind in ('cond', 'call', 'return') and (reads(e.value) or reads(e.call))) or
+            (e.kind == 'store' and reads(e.value)) or reads(e.guard))]
+        ctx.check(not bad, rule, bad[0].func.qname if bad else m.qname, bad[0].node if bad else m.node.name,
+                  bad[0].loc() if bad else m.loc(),
+                  f'{label} reads {spec[0][1:]}.{col}, a result of its own earlier run, before recomputing it: a '
+                  'repeated call is not idempotent (it takes a different path than the first call)',
+                  instance=f'{label}: does not read its own {col} before resetting it')
     # find_groups resets 'isolated' before writing it per slice
     for m, binding, own, label in stage_methods(ctx, rule):
         if label != 'find_groups()':
